@@ -68,7 +68,7 @@ func evaluate(c *rig.Ctx, cs *Case) verdict {
 		}
 	}
 	if v.real.Hang {
-		v.fails = append(v.fails, failure{kind: "diff", class: "c12.hang", what: "the real code did not finish the history within 30 s (a request blocked)"})
+		v.fails = append(v.fails, failure{kind: "diff", class: "c12.hang", what: "the real code did not finish the history within 60 s: " + v.real.Diagnosis})
 		return v
 	}
 	// answers of the authenticator / authorizer by request id; what the dispatcher did, in order
@@ -113,6 +113,15 @@ func evaluate(c *rig.Ctx, cs *Case) verdict {
 
 	for _, pr := range v.real.Problems {
 		v.fails = append(v.fails, failure{kind: "diff", class: "c12.chain-problem", what: pr})
+	}
+	// a nested request that had to wait for the request it overlaps: requests to different hosts share nothing they could
+	// wait for in the model (the only legitimate sharing, one token look-up per cache object, is never scheduled), so this
+	// is a difference between model and code; every answer is still judged below
+	for _, d := range v.real.Overlaps {
+		v.fails = append(v.fails, failure{kind: "diff", class: "c12.overlapping-request-waits", what: d})
+	}
+	for _, d := range v.real.Stuck {
+		v.fails = append(v.fails, failure{kind: "diff", class: "c12.request-never-answered", what: d})
 	}
 	// ---- judge 0: a request that WithUpstreamInfo bound to a cluster (it is proxied there) is decided by that cluster only
 	boundElsewhere := map[int]bool{}
@@ -188,6 +197,9 @@ func evaluate(c *rig.Ctx, cs *Case) verdict {
 			v.fails = append(v.fails, failure{kind: "diff", class: "c12.unexpected-error", impl: o, what: fmt.Sprintf("request %d: unexpected result %v", o.Rid, r)})
 			continue
 		}
+		if o.Kind == "sar" && (o.Attrs < 0 || o.Attrs >= len(cs.Attrs)+len(v.real.ExtraAttrs)) {
+			continue // (reported through o.Problem: attributes unknown to the case)
+		}
 		own := o.Own
 		if own < 0 {
 			own = -1
@@ -216,7 +228,7 @@ func evaluate(c *rig.Ctx, cs *Case) verdict {
 			pipeline = append(pipeline, o)
 		}
 	}
-	args := map[string]interface{}{"cfg": cs.Cfg, "tokOracle": cs.TokOracle, "sarOracle": cs.SarOracle, "attrs": cs.Attrs, "ops": cs.Ops, "impl": impl}
+	args := map[string]interface{}{"cfg": cs.Cfg, "tokOracle": cs.TokOracle, "sarOracle": cs.SarOracle, "attrs": append(append([]Attrs{}, cs.Attrs...), v.real.ExtraAttrs...), "ops": cs.Ops, "impl": impl}
 	var m ModelReply
 	if err := c.Model("C12.run", args, &m); err != nil {
 		v.fails = append(v.fails, failure{kind: "diff", class: "c12.model-error", what: "model error: " + err.Error()})
@@ -262,6 +274,10 @@ func evaluate(c *rig.Ctx, cs *Case) verdict {
 	// ---- diff
 	if v.real.Stalled {
 		v.skippedDiff = "stalled"
+		return v
+	}
+	if len(v.real.Overlaps) > 0 {
+		v.skippedDiff = "overlapping request waited"
 		return v
 	}
 	if v.real.DropTimeouts > 0 {
